@@ -2,12 +2,14 @@ SPECIFICATION Spec
 CONSTANTS
   Roles = {TRUE, FALSE}
   RequireMI = TRUE
+  Dispatch = "class"
+  Methods = {"binding", "other"}
+  Priorities = {TRUE, FALSE}
   ForgedAuth = {"none", "wrong", "trunc"}
   Usernames = {"ok", "other"}
   MaxTx = 8
   MaxTicks = 0
   Timers = FALSE
   MaxHist = 40
-CONSTRAINT Bound
 ACTION_CONSTRAINT EmitBehaviour
 CHECK_DEADLOCK FALSE
